@@ -29,6 +29,18 @@ def run(tier):
             m.attrs.insert(g.r.randint(0, len(m.attrs)), Instr("foreign", "foreign", text=stray_member))
         it.meta["tolerated_strays"] = True
         items.append(it)
+    for _ in range(nvalid // 10):
+        # allow_unknown silences *unknown* attributes, not o2o's own instructions with arguments that do not parse
+        it = xgen.gen(g)
+        it.attrs = [a for a in it.attrs if a.kind != "allow_unknown"]
+        it.attrs.insert(0, Instr("allow_unknown", "allow_unknown"))
+        members = it.fields if it.kind == "struct" else it.variants
+        if not members:
+            continue
+        m = g.pick(members)
+        nm, args = g.pick([("child", ""), ("type_hint", "as []"), ("map", ", ,"), ("ghost", "A| |"), ("parent", "[map] x"), ("as_type", ""), ("literal", ""), ("pattern", "")])
+        m.attrs.insert(g.r.randint(0, len(m.attrs)), Instr(nm, "raw", args=args))
+        items.append(it)
     modes = ["bare", "o2o", "grouped", "mixed", "mixed"]
     variants = [[xform.respell(it, g, m) for m in modes] for it in items]
     srcs = [v.render() for vs in variants for v in vs]
